@@ -41,7 +41,7 @@ BODY_PATH = {"multipart-file": "/bodyf", "multipart-raw": "/bodyr"}
 CTYPE_ONLY = ("multipart", "multipart-file", "multipart-raw", "yaml", "xml", "binary")   # payload encoding outside the fragment
 CONF_HEADERS = {"X-Conf": "v 1;q=a"}
 TRANSPORTS = ("requests", "wsgi", "asgi")
-ASPECTS = ("url", "param", "extra", "hdrs", "conf", "id", "host", "method", "ctype", "body")
+ASPECTS = ("url", "param", "extra", "hdrs", "conf", "id", "host", "method", "ctype", "body", "hist")
 
 
 # ---------------------------------------------------------------------------------------------------------------------
@@ -132,6 +132,9 @@ def build_doc(dialect: str) -> dict:
         "responses": OK_RESP}}
     for key, schema in (("yaml", {}), ("xml", {"type": "object"}), ("binary", {"type": "string", "format": "binary"}), ("json-suffix", {})):
         paths["/body"]["post"]["requestBody"]["content"][MEDIA[key]] = {"schema": schema}
+    paths["/items"] = {"get": {"parameters": [{"name": "q", "in": "query", "schema": {"type": "string"}},
+                                               {"name": "c", "in": "cookie", "schema": {"type": "string"}},
+                                               {"name": "X-H", "in": "header", "schema": {"type": "string"}}], "responses": OK_RESP}}
     paths["/bodyr"] = {"post": {"requestBody": {"required": True, "content": {MEDIA["multipart"]: {"schema": {"type": "string"}}}}, "responses": OK_RESP}}
     for path, a_schema in (("/body", {"type": "string"}), ("/bodyf", {"type": "string", "format": "binary"})):
         content = paths.setdefault(path, {"post": {"requestBody": {"required": True, "content": {}}, "responses": OK_RESP}})
@@ -219,10 +222,14 @@ def get_operation(el: dict, transport: str):
         return get_schema(d["dialect"], el["base"], transport)[op_path(d)]["GET"]
     if el["kind"] == "url":
         return get_schema("oas3", el["base"], transport)[URL_TMPL[el["tmpl"]]]["GET"]
+    if el["kind"] == "hist":
+        return get_schema("oas3", el["base"], transport)["/items"]["GET"]
     return get_schema("oas3", el["base"], transport)[BODY_PATH.get(el["media"], "/body")]["POST"]
 
 
 def template_of(el: dict) -> str:
+    if el["kind"] == "hist":
+        return "/items"
     return op_path(el["def"]) if el["kind"] == "param" else URL_TMPL[el["tmpl"]] if el["kind"] == "url" else BODY_PATH.get(el["media"], "/body")
 
 
@@ -331,24 +338,32 @@ def _norm_host(h: str) -> str:
     return re.sub(r":\d+$", ":PORT", h)
 
 
-def send(el: dict, kwargs: dict, transport: str, pipe: str) -> dict:
-    """Build the Case on the transport's own schema object, send it, project what arrived."""
+STEP_EXTRAS = {"plain": {}, "params": {"params": {"limit": 10}}, "headers": {"headers": {"X-E": "e"}}, "cookies": {"cookies": {"d": "2"}}}
+HIST_CASE = {"cookies": {"c": "1"}, "headers": {"X-H": "h"}}
+
+
+def send(el: dict, kwargs: dict, transport: str, pipe: str, case=None, step: str = "") -> dict:
+    """Build the Case on the transport's own schema object (or take the one of a history), send it, project what arrived."""
     op = get_operation(el, transport)
-    case = op.Case(**copy.deepcopy(kwargs))
+    if case is None:
+        case = op.Case(**copy.deepcopy(kwargs))
     conf = CONF_HEADERS if el["kind"] in ("url", "body") else None
     call_kw: dict = {}
     if conf:
         call_kw["headers"] = dict(conf)
+    if step:
+        call_kw.update(copy.deepcopy(STEP_EXTRAS[step]))
+        before = (copy.deepcopy(case.query), copy.deepcopy(case.cookies), dict(case.headers or {}), copy.deepcopy(case.path_parameters))
     root = _root(transport)
     if el["base"] == 7 and transport != "wsgi":
         call_kw["base_url"] = root + BASE_PATH[7]
     d = el["def"]
-    loc = d["loc"] if el["kind"] != "body" else "none"
+    loc = d["loc"] if el["kind"] in ("param", "url") else "hist-headers" if step == "headers" else "hist" if step else "none"
     has_body = "body" in kwargs
     o: dict = {"kind": el["kind"], "def": d, "val": el["val"], "bval": SECOND_BODY if pipe == "C2" else el["val"],
                "media": "text" if pipe == "C2" else el["media"], "explicit": pipe == "X",
                "wantMethod": op.method.upper(), "basePath": cps(BASE_PATH[el["base"]]), "tmpl": cps(template_of(el)),
-               "wantCtype": cps((case.media_type or "") if has_body else "")}
+               "wantCtype": cps((case.media_type or "") if has_body else ""), "step": step, "envloc": loc}
     try:
         if transport == "requests":
             srv = _server()
@@ -391,6 +406,10 @@ def send(el: dict, kwargs: dict, transport: str, pipe: str) -> dict:
     o["wantId"] = "ID"
     o["gotId"] = "ID" if got_id == case.id else "other:" + got_id
     want_host = urlsplit(call_kw.get("base_url") or root).netloc
+    # history sends: the case's own header X-H, the call-level X-E, and which of the case's containers the send changed
+    o["hx"] = [{"n": k, "v": cps(hd[k])} for k in ("x-e", "x-h") if k in hd] if step else []
+    o["mut"] = ([n for n, b, a in zip(("query", "cookies", "headers", "path_parameters"), before,
+                                      (case.query, case.cookies, dict(case.headers or {}), case.path_parameters)) if a != b] if step else [])
     o["wantHost"] = _norm_host(want_host)
     o["gotHost"] = _norm_host(hd.get("host", ""))
     return o
@@ -402,6 +421,16 @@ def run_element(el: dict) -> list[dict]:
     value = value_py(el["val"])
     d = el["def"]
     pipes: list[tuple[str, dict | None]] = []
+    if el["kind"] == "hist":
+        # one Case object per transport, sent once per step of the history
+        for tr in TRANSPORTS:
+            case = get_operation(el, tr).Case(query={"q": value}, **copy.deepcopy(HIST_CASE))
+            for k, step in enumerate(el["hist"]):
+                o = send(el, {}, tr, "X", case=case, step=step)
+                r = {"pipe": "X", "transport": tr, "kwargs": "step %d/%d %s of %s" % (k + 1, len(el["hist"]), step, "+".join(el["hist"])), "step": k}
+                r.update({"error": o["error"]} if "error" in o else {"obs": o})
+                out.append(r)
+        return out
     if el["kind"] == "body":
         try:
             pipes.append(("G", pipeline_generate_body(el, value)))
@@ -852,7 +881,7 @@ STANDARD = {"host", "user-agent", "accept", "accept-encoding", "connection", "co
 
 def py_judge(o: dict, fragment: str, want: dict) -> dict:
     # '/', '{', '}' in a path value: outside the fragment only for explicit cases and for an already decoded path (WSGI)
-    if (o["kind"] != "body" and o["def"]["loc"] == "path" and (o["explicit"] or o["pmode"] == "dec")
+    if (o["kind"] in ("param", "url") and o["def"]["loc"] == "path" and (o["explicit"] or o["pmode"] == "dec")
             and any(c in (47, 123, 125) for t in list(want["items"]) + list(want["keys"]) for c in t)):
         fragment = "unsendable-path-value"
     want_segs = [s for s in split(o["basePath"], 47) if s] + split(o["tmpl"], 47)[1:]
@@ -860,23 +889,26 @@ def py_judge(o: dict, fragment: str, want: dict) -> dict:
     var = cps("{p}")
     struct_ok = bool(o["path"]) and o["path"][0] == 47 and len(got_segs) == len(want_segs)
     lit_ok = struct_ok and all(ws == var or txt(gs, o["pmode"]) == text(ws) for ws, gs in zip(want_segs, got_segs))
-    in_path = o["kind"] != "body" and o["def"]["loc"] == "path"
+    in_path = o["kind"] in ("param", "url") and o["def"]["loc"] == "path"
     url = "U" if in_path and fragment != "T" else ("T" if in_path else "F:structure") if not struct_ok else "F:literal" if not lit_ok else "T"
     seg = got_segs[want_segs.index(var)] if struct_ok and var in want_segs else []
-    body_kind = o["kind"] == "body"
+    body_kind = o["kind"] in ("body", "hist")
     loc = o["def"]["loc"]
+    step = o.get("step", "")
     if body_kind:
         pv, why = "T", ""
     elif loc == "path" and not struct_ok:
         pv, why = ("U", fragment) if fragment != "T" else ("F", "structure")
     else:
         pv, why = py_param_verdict(o, fragment, want, seg)
-    extra = "F" if (body_kind or loc != "query") and o["query"] else "T"
+    extra = "F" if o["kind"] != "hist" and (body_kind or loc != "query") and o["query"] else "T"
     allowed = STANDARD | {"x-schemathesis-testcaseid"} | {c["name"] for c in o["conf"]}
     if not body_kind and loc == "header":
         allowed.add(NAME)
     if not body_kind and loc == "cookie":
         allowed.add("cookie")
+    if o["kind"] == "hist":
+        allowed |= {"cookie", "x-h"} | ({"x-e"} if step == "headers" else set())
     hdrs = "T" if all(h in allowed for h in o["hnames"]) else "F"
     conf = "T" if all(c["present"] and c["got"] == c["want"] for c in o["conf"]) else "F"
     media = o["media"]
@@ -900,7 +932,31 @@ def py_judge(o: dict, fragment: str, want: dict) -> dict:
             body = "T" if ks is not None and vs is not None and same(("obj", tuple(vs), tuple(ks)), bwant) else "F"
     else:
         body = "T" if bt is not None and bt == bwant[1][0] else "F"
-    return {"url": url, "param": pv, "why": why, "extra": extra, "hdrs": hdrs, "conf": conf,
+    hist = "T"
+    if o["kind"] == "hist":
+        kv = q_parts(o["query"])
+        ns, vs = dec_all([a for a, _, _ in kv], "form"), dec_all([b for _, b, _ in kv], "form")
+        want_q = {("q", py_coerce(o["val"]["items"][0]))} | ({("limit", "10")} if step == "params" else set())
+        want_c = {("c", "1")} | ({("d", "2")} if step == "cookies" else set())
+        want_h = {("x-h", "h")} | ({("x-e", "e")} if step == "headers" else set())
+        ck = []
+        if o["cpresent"]:
+            for part in split(o["cookie"], 59):
+                while part and part[0] in (32, 9):
+                    part = part[1:]
+                if part:
+                    a, b, _ = split_first(part, 61)
+                    ck.append((text(a), text(b)))
+        own = [(h["n"], text(h["v"])) for h in o["hx"]]
+        if ns is None or vs is None or set(zip(ns, vs)) != want_q or len(kv) != len(want_q):
+            hist = "F:query"
+        elif set(ck) != want_c or len(ck) != len(want_c):
+            hist = "F:cookie"
+        elif set(own) != want_h or len(own) != len(want_h):
+            hist = "F:header"
+        elif o["mut"]:
+            hist = "F:case-mutated"
+    return {"hist": hist, "url": url, "param": pv, "why": why, "extra": extra, "hdrs": hdrs, "conf": conf,
             "id": "T" if o["gotId"] == o["wantId"] and o["wantId"] else "F",
             "host": "T" if o["gotHost"] == o["wantHost"] else "F",
             "method": "T" if o["method"] == o["wantMethod"] else "F",
@@ -951,9 +1007,14 @@ def value_features(v: dict) -> frozenset:
     return frozenset(out)
 
 
-def site_parts(el: dict, pipe: str, aspect: str) -> tuple[str, tuple]:
+def site_parts(el: dict, pipe: str, aspect: str, stepidx: int | None = None) -> tuple[str, tuple]:
     """(group, dims): the group never collapses; a dimension collapses to '*' when every judged value of it fails alike."""
     d = el["def"]
+    if el["kind"] == "hist":
+        # what matters for one send of a history: its own kind of call and which kinds of extras earlier calls carried
+        k = stepidx or 0
+        earlier = sorted({h for h in el["hist"][:k] if h != "plain"})
+        return aspect + ":history", (pipe, "step=" + el["hist"][k], "earlier=" + ("+".join(earlier) or "none"))
     if el["kind"] == "body":
         return aspect + ":body", (pipe, el["media"], el["val"]["k"])
     tmpl = URL_TMPL[el["tmpl"]] if el["kind"] == "url" else ("/x/{p}/y" if d["loc"] == "path" else "/x")
@@ -961,8 +1022,8 @@ def site_parts(el: dict, pipe: str, aspect: str) -> tuple[str, tuple]:
                     "base=" + (BASE_PATH[el["base"]] or "(none)"), "tmpl=" + tmpl)
 
 
-def site_of(el: dict, pipe: str, aspect: str) -> str:
-    g, dims = site_parts(el, pipe, aspect)
+def site_of(el: dict, pipe: str, aspect: str, stepidx: int | None = None) -> str:
+    g, dims = site_parts(el, pipe, aspect, stepidx)
     return g + ":" + ":".join(dims)
 
 
@@ -1013,9 +1074,9 @@ def attribute(fails: list[dict]) -> None:
 # ---------------------------------------------------------------------------------------------------------------------
 # judging
 # ---------------------------------------------------------------------------------------------------------------------
-CTX_FIELDS = ("kind", "media", "wantMethod", "basePath", "tmpl", "wantCtype")
+CTX_FIELDS = ("kind", "media", "wantMethod", "basePath", "tmpl", "wantCtype", "step")
 CORE_FIELDS = {"x": "explicit", "m": "method", "path": "path", "pm": "pmode", "q": "query", "hp": "hpresent", "hv": "hval",
-               "cp": "cpresent", "ck": "cookie", "b": "body", "ct": "ctype"}
+               "cp": "cpresent", "ck": "cookie", "b": "body", "ct": "ctype", "hx": "hx", "mut": "mut"}
 ENV_FIELDS = ("hnames", "conf", "gotId", "wantId", "gotHost", "wantHost")
 
 
@@ -1038,11 +1099,14 @@ def judge(ctx: Ctx, observations: list[dict], name: str = "obs.json"):
     defs, vals, ctxs, cores, envs = _Table(), _Table(), _Table(), _Table(), _Table()
     idx = []
     for o in observations:
+        o.setdefault("step", "")
+        o.setdefault("hx", [])
+        o.setdefault("mut", [])
         core = {"c": ctxs.add({k: o[k] for k in CTX_FIELDS}), "d": defs.add(o["def"]), "v": vals.add(o["val"]),
                 "bv": vals.add(o.get("bval", o["val"]))}
         core.update({k: o[src] for k, src in CORE_FIELDS.items()})
         env = {k: o[k] for k in ENV_FIELDS}
-        env["loc"] = o["def"]["loc"] if o["kind"] != "body" else "none"
+        env["loc"] = o.get("envloc") or (o["def"]["loc"] if o["kind"] != "body" else "none")
         idx.append((cores.add(core), envs.add(env)))
     f = ctx.path(name)
     tlc.write_json(f, {"defs": defs.rows, "vals": vals.rows, "ctx": ctxs.rows, "core": cores.rows, "env": envs.rows})
@@ -1061,16 +1125,16 @@ def emit(out: Outcome, cases: list[dict], results: list, fails: list[dict], judg
     # one violation per (element, pipeline, aspect); the failing transports are part of the signature
     grouped: dict[tuple, list[dict]] = {}
     for f in fails:
-        grouped.setdefault((f["ci"], f["pipe"], f["aspect_full"], f["feature"]), []).append(f)
+        grouped.setdefault((f["ci"], f["pipe"], f["aspect_full"], f["feature"], f.get("stepidx")), []).append(f)
     # transports part of the signature: the transports on which the element fails; a transport on which it is outside the fragment
     # (e.g. '/' in WSGI's decoded PATH_INFO) counts like the other values of the same class at the same site do there
     site_fail: dict[tuple, set] = {}
-    for (ci, pipe, aspect, feature), fs in grouped.items():
-        group, dims = site_parts(cases[ci], pipe, aspect)
+    for (ci, pipe, aspect, feature, stepidx), fs in grouped.items():
+        group, dims = site_parts(cases[ci], pipe, aspect, stepidx)
         site_fail.setdefault((group, dims, feature), set()).update(f["transport"] for f in fs)
     pending = []
-    for (ci, pipe, aspect, feature), fs in grouped.items():
-        group, dims = site_parts(cases[ci], pipe, aspect)
+    for (ci, pipe, aspect, feature, stepidx), fs in grouped.items():
+        group, dims = site_parts(cases[ci], pipe, aspect, stepidx)
         trs = sorted({f["transport"] for f in fs})
         ran = sorted({r["transport"] for r in results[ci] if r.get("pipe") == pipe and "transport" in r})
         unjudged = set(ran) - judged_tr.get((ci, pipe, aspect.split(":")[0]), set(ran))
@@ -1080,19 +1144,20 @@ def emit(out: Outcome, cases: list[dict], results: list, fails: list[dict], judg
         pending.append((group, feature, tr, dims, ci, pipe, aspect, trs, fs[0]))
     # universe of judged descriptor dimensions per (group, feature): where the same feature was judged at all
     judged_dims: dict[str, list[tuple]] = {}
-    for el, jpipe, v in judged:
+    for el, jpipe, v, jstep in judged:
         ft = value_features(el["val"])
         for a in ASPECTS:
             if v[a] == "T" or v[a].startswith("F"):
-                g, dims = site_parts(el, jpipe, a + (v[a][1:] if a == "url" and v[a] != "T" else ""))
-                judged_dims.setdefault("body" if el["kind"] == "body" else "req", []).append((dims, ft))
+                g, dims = site_parts(el, jpipe, a + (v[a][1:] if a in ("url", "hist") and v[a] != "T" else ""), jstep)
+                judged_dims.setdefault(el["kind"] if el["kind"] in ("body", "hist") else "req", []).append((dims, ft))
     by_key: dict[tuple, set] = {}
     for group, feature, tr, dims, *_ in pending:
         by_key.setdefault((group, feature, tr), set()).add(dims)
     labels: dict[tuple, dict] = {}
     for (group, feature, tr), failing in by_key.items():
         need = set() if feature == "any-value" else set(feature.split("+"))
-        universe = {dims for dims, ft in judged_dims.get("body" if group.endswith(":body") else "req", []) if need <= ft}
+        universe = {dims for dims, ft in judged_dims.get("body" if group.endswith(":body") else "hist" if group.endswith(":history") else "req", [])
+                    if need <= ft}
         labels[(group, feature, tr)] = collapse(failing, universe)
     for group, feature, tr, dims, ci, pipe, aspect, trs, f0 in sorted(pending, key=lambda x: (x[0], x[1], x[2], x[3], x[4])):
         el = cases[ci]
@@ -1176,9 +1241,9 @@ def run(ctx: Ctx) -> Outcome:
             nontrivial += 1
         for a in ASPECTS:
             if v[a].startswith("F"):
-                fails.append({"ci": ci, "pipe": r["pipe"], "aspect": a, "aspect_full": a + (v[a][1:] if a == "url" else ""),
+                fails.append({"ci": ci, "pipe": r["pipe"], "aspect": a, "aspect_full": a + (v[a][1:] if a in ("url", "hist") else ""), "stepidx": r.get("step"),
                               "transport": r["transport"],
-                              "detail": (v["why"] if a == "param" else v[a]), "site": site_of(el, r["pipe"], a + (v[a][1:] if a == "url" else "")),
+                              "detail": (v["why"] if a == "param" else v[a]), "site": site_of(el, r["pipe"], a + (v[a][1:] if a in ("url", "hist") else ""), r.get("step")),
                               "features": value_features(el["val"]), "obs": r["obs"], "kwargs": r["kwargs"]})
     # every case derived from one coverage template must decode, not only the first: the second derivation (C2) is reported where
     # the first (C) is fine; where both fail alike the finding is the first one's
@@ -1190,8 +1255,8 @@ def run(ctx: Ctx) -> Outcome:
         for a in ASPECTS:
             if v[a] == "T" or v[a].startswith("F"):
                 judged_tr.setdefault((ci, r["pipe"], a), set()).add(r["transport"])
-    emit(out, cases, results, main, [(cases[ci], r["pipe"], v) for (ci, r), v in zip(flat, verdicts) if r["pipe"] != "C2"], judged_tr)
-    emit(out, cases, results, again, [(cases[ci], "C2", v) for (ci, r), v in zip(flat, verdicts)
+    emit(out, cases, results, main, [(cases[ci], r["pipe"], v, r.get("step")) for (ci, r), v in zip(flat, verdicts) if r["pipe"] != "C2"], judged_tr)
+    emit(out, cases, results, again, [(cases[ci], "C2", v, None) for (ci, r), v in zip(flat, verdicts)
                                       if r["pipe"] == "C2" and c_verdict.get((ci, r["transport"]), {}).get("param") == "T"], judged_tr, "C2")
     checked = realgen_crosscheck(ctx, rng, cases, results)
     checked_cov = realcov_crosscheck(ctx, rng, cases, out)
